@@ -172,7 +172,7 @@ static void client (void *arg) {
 				r = nsync_wait_n (NULL, NULL, NULL, deadline (o->dl), cnt, pw);
 				if (r < cnt) {
 					int id = S.wobjs[t][r], x = id, cause = 0;
-					if (id == 9) { if (!S.cz) rt_violation ("O-ret", "nsync_wait_n returned index %d (the counter) but the counter has never been zero", r); }
+					if (id == 9) { if (!S.cz) rt_violation ("O-ret", "nsync_wait_n returned index %d (the counter) but the counter has never been zero", r); if (S.hbdata) rd_cells (); }
 					else {
 						for (k = 0; k < MAXOBJ && x != 0; k++, x = S.lpar[x]) if (S.called[x] || expired (S.dl_of[x])) cause = 1;
 						if (!cause) rt_violation ("O-ret", "nsync_wait_n returned index %d (note %d) but that note has no reason to be notified", r, id);
@@ -195,10 +195,13 @@ static void client (void *arg) {
 				else if (r == ECANCELED) { if (!cause) rt_violation ("O-ret", "nsync_sem_wait_with_cancel_ returned ECANCELED but note %d has no reason to be notified", a); }
 				else if (r == ETIMEDOUT) { if (!expired (o->dl)) rt_violation ("O-ret", "nsync_sem_wait_with_cancel_ returned ETIMEDOUT at clock %ld before its deadline %d", (long) (rt_now () - RT_T0), o->dl); }
 				else rt_violation ("O-ret", "nsync_sem_wait_with_cancel_ returned %d", r);
+				if (r == ECANCELED && S.hbdata) { int byn = 0; for (k = 0, x = a; k < MAXOBJ && x != 0; k++, x = S.lpar[x]) if (S.called[x]) byn = 1; if (byn) rd_cells (); }   /* notifying happens before the cancelled return (single-notifier scenarios) */
 				if (must && r != ECANCELED) rt_violation ("O-lin", "nsync_sem_wait_with_cancel_ returned %d although nsync_note_notify of note %d or of an ancestor had returned before the call", r, a);
 				S.ret[t] = r;
 			} else if (!strcmp (o->name, "cadd")) {
-				uint32_t r = nsync_counter_add (S.c, a);
+				uint32_t r;
+				if (a < 0) wr_cell (t);
+				r = nsync_counter_add (S.c, a);
 				S.ret[t] = (int) r;
 			} else if (!strcmp (o->name, "semv")) {
 				nsync_mu_semaphore_v (&S.wt[a - 1]->sem);
